@@ -14,7 +14,7 @@ RULE = ("random trees (files, directories, symlinks, FIFOs; modes incl. suid/sgi
 
 NUM = ["size", "uid", "gid", "hardlinks", "length(name)"]
 TEXT = ["name", "path", "ext", "dir", "mode"]
-BOOL = ["is_dir", "is_file", "is_symlink", "is_pipe", "is_hidden", "is_empty", "user_read", "user_write", "user_exec",
+BOOL = ["is_dir", "is_file", "is_symlink", "is_pipe", "is_char", "is_block", "is_socket", "is_hidden", "is_empty", "user_read", "user_write", "user_exec",
         "group_read", "group_write", "group_exec", "other_read", "other_write", "other_exec", "suid", "sgid", "user_all"]
 NUM_OPS = ["=", "==", "eq", "!=", "<>", "ne", ">", "gt", ">=", "gte", "ge", "<", "lt", "<=", "lte", "le", "===", "!=="]
 TEXT_OPS = ["=", "!=", "===", "!==", "like", "not like", "notlike", "=~", "!=~", "rx", "eq", "ne"]
@@ -78,7 +78,7 @@ def gen_atom(r, snap):
         op = r.choice(["=", "!=", ">", ">=", "<", "<=", "gt", "lte", "eq", "ne"])
         return ("date", "modified", op, lit, "modified %s '%s'" % (op, lit))
     if k < 9:
-        col = r.choice(BOOL if r.chance(1, 4) else ["is_dir", "is_file", "is_hidden", "is_empty", "user_exec", "group_write", "other_read", "other_exec", "group_read"])
+        col = r.choice(BOOL if r.chance(1, 3) else ["is_dir", "is_file", "is_hidden", "is_empty", "user_exec", "group_write", "other_read", "other_exec", "group_read"])
         lit = r.choice(BOOL_LITS)
         op = r.choice(["=", "!=", "==", "ne", "eq"])
         return ("bool", col, op, lit, "%s %s %s" % (col, op, lit))
@@ -102,7 +102,7 @@ def run(ctx):
     try:
         for t in range(ntrees):
             r = ctx.rng.fork()
-            ents = fstree.gen_tree(r, max_entries=r.choice([8, 20, 35]), kinds="fdlp", adversarial=r.chance(1, 4))
+            ents = fstree.gen_tree(r, max_entries=r.choice([8, 20, 35]), kinds="fdlps", adversarial=r.chance(1, 4))
             # names that spell columns/functions
             ents.append({"path": r.choice(["size", "bin", "name.hex", "lower.mode"]), "kind": "f", "size": 3, "mode": 0o644, "mtime": 1700000000})
             ents.append({"path": r.choice(["Name", "Extension", "Size", "Mode", "x.Extension", "Length(Name)"]), "kind": "f", "size": 4, "mode": 0o644, "mtime": 1700000000})
